@@ -218,13 +218,19 @@ func (ex *Exec) callValue(fv Value, args []Value, deferBy *Frame, caller *Frame)
 	return ex.call(f.Fn, all, len(args), deferBy, caller)
 }
 
+// notHandled is returned by an intrinsic that declines the call: the real function body is executed instead.
+type notHandled struct{}
+
 func (ex *Exec) call(fn *ssa.Function, args []Value, nparams int, deferBy *Frame, caller *Frame) (ret Value) {
 	name := fn.String()
 	if in, ok := intrinsics[name]; ok {
-		ex.noteIntrinsic(name)
-		return in(ex, args[:nparams], caller)
-	}
-	if in := harnessIntrinsic(fn); in != nil {
+		v := in(ex, args[:nparams], caller)
+		if _, declined := v.(notHandled); !declined {
+			ex.noteIntrinsic(name)
+			return v
+		}
+		// the model does not cover these arguments: execute the real body
+	} else if in := harnessIntrinsic(fn); in != nil {
 		return in(ex, args[:nparams], caller)
 	}
 	if fn.Pkg != nil {
